@@ -765,6 +765,32 @@ func runC10(c *fw.Case) {
 		}
 	}
 
+	// every aggregation over a column that does not exist, and every grouping by one
+	for _, fn := range []interface{}{"count", "sum", "min", "max", "avg", "majority", func(v []int) int { cb.hit(); return 0 }, func(v []*string) *string { cb.hit(); return nil }} {
+		for _, as := range []string{"", "out"} {
+			for _, grouped := range []bool{false, true} {
+				fn, as, grouped := fn, as, grouped
+				judge(fmt.Sprintf("Aggregate %s over an unknown column (As=%q, grouped=%v)", describeVal(fn), as, grouped), "Aggregate", true, func() qframe.QFrame {
+					g := qf.GroupBy()
+					if grouped {
+						g = qf.GroupBy(groupby.Columns(bC))
+					}
+					return g.Aggregate(qframe.Aggregation{Fn: fn, Column: "no-such-column", As: as})
+				})
+				if c.Failed() {
+					return
+				}
+			}
+		}
+		fn := fn
+		judge(fmt.Sprintf("GroupBy(unknown column).Aggregate(%s)", describeVal(fn)), "Aggregate", true, func() qframe.QFrame {
+			return qf.GroupBy(groupby.Columns(bC, "no-such-column")).Aggregate(qframe.Aggregation{Fn: fn, Column: iC})
+		})
+		if c.Failed() {
+			return
+		}
+	}
+
 	// ------------------------------------------------------------ (c) stickiness
 	type cont struct {
 		name string
